@@ -34,8 +34,7 @@ import "github.com/insomniacslk/dhcp/dhcpv4"
 //@   ensures[returns-on-read-error] result != nil
 //@   after `call:ReadFrom` let S0 = spawned()
 //@   after `call:ReadFrom` let N0 = allocstamp()
-//@   after `s.logger.Printf("Error parsing DHCPv4 request: %v", err)` claim[undecodable-not-dispatched] spawned() == S0 && !dhcpv4.SpecAcceptV4(string(rbuf[:n]))
-//@   after `s.logger.Printf("Not a UDP connection? Peer is %s", peer)` claim[non-udp-not-dispatched] spawned() == S0
+//@   after `loopend:` claim[per-datagram] spawned() == S0 || (spawned() == S0 + 1 && dhcpv4.SpecAcceptV4(string(rbuf[:n])) && typeIs(peer, *net.UDPAddr))
 //@   after `go:` claim[dispatched-once] spawned() == S0 + 1 && dhcpv4.SpecAcceptV4(string(rbuf[:n])) && m != nil && fresh(m)
 //@   after `go:` claim[message-of-this-datagram] string(m.TransactionID[:]) == string(rbuf[:n])[4:8] && int(m.OpCode) == int(rbuf[0])
 //@   after `go:` claim[own-message] ref(m) >= N0 && ref(m.Options) >= N0
